@@ -40,6 +40,14 @@ pub enum Expr {
     SumAll(Vec<u32>),
     /// harness-controlled cell (external nodes only)
     World(u32),
+    /// (C05) speculative read: the read of the key is started and polled ONCE before the body is evaluated and dropped after
+    /// it; its result is never used (value = value of the body).  If the callee is pending at that poll, the executor
+    /// cancels one of its own reads and carries on (`select!` / timeout / first-wins inside an executor).
+    Spec(u32, Box<Expr>),
+    /// (C05) `a / b`; evaluating it with b = 0 panics ("division by zero"): a read that is only valid under a guard
+    Div(Box<Expr>, Box<Expr>),
+    /// (C05) awaits `tokio::task::yield_now()` once, then the body: an executor that is pending at its first poll
+    Yield(Box<Expr>),
 }
 
 impl Expr {
@@ -51,6 +59,9 @@ impl Expr {
             Expr::IfEq(e, n, a, b) => { o.push_str("? "); e.render(o); o.push_str(&format!(" {n} ")); a.render(o); o.push(' '); b.render(o); }
             Expr::SumAll(ks) => { o.push_str(&format!("S {}", ks.len())); for k in ks { o.push_str(&format!(" {k}")); } }
             Expr::World(k) => { o.push_str(&format!("w {k}")); }
+            Expr::Spec(k, e) => { o.push_str(&format!("X {k} ")); e.render(o); }
+            Expr::Div(a, b) => { o.push_str("/ "); a.render(o); o.push(' '); b.render(o); }
+            Expr::Yield(e) => { o.push_str("Y "); e.render(o); }
         }
     }
     pub fn parse(t: &mut std::slice::Iter<'_, &str>) -> Expr {
@@ -61,6 +72,9 @@ impl Expr {
             "+" => { let a = Expr::parse(t); let b = Expr::parse(t); Expr::Add(Box::new(a), Box::new(b)) }
             "?" => { let e = Expr::parse(t); let n = t.next().unwrap().parse().unwrap(); let a = Expr::parse(t); let b = Expr::parse(t); Expr::IfEq(Box::new(e), n, Box::new(a), Box::new(b)) }
             "S" => { let n: usize = t.next().unwrap().parse().unwrap(); Expr::SumAll((0..n).map(|_| t.next().unwrap().parse().unwrap()).collect()) }
+            "X" => { let k = t.next().unwrap().parse().unwrap(); let e = Expr::parse(t); Expr::Spec(k, Box::new(e)) }
+            "/" => { let a = Expr::parse(t); let b = Expr::parse(t); Expr::Div(Box::new(a), Box::new(b)) }
+            "Y" => { let e = Expr::parse(t); Expr::Yield(Box::new(e)) }
             x => panic!("expr token {x}"),
         }
     }
@@ -70,6 +84,19 @@ impl Expr {
             Expr::Add(a, b) => { a.reads(out); b.reads(out); }
             Expr::IfEq(e, _, a, b) => { e.reads(out); a.reads(out); b.reads(out); }
             Expr::SumAll(ks) => out.extend(ks.iter().copied()),
+            Expr::Spec(k, e) => { out.push(*k); e.reads(out); }
+            Expr::Div(a, b) => { a.reads(out); b.reads(out); }
+            Expr::Yield(e) => e.reads(out),
+            _ => {}
+        }
+    }
+    /// keys that are read speculatively somewhere in the expression
+    pub fn spec_targets(&self, out: &mut Vec<u32>) {
+        match self {
+            Expr::Spec(k, e) => { out.push(*k); e.spec_targets(out); }
+            Expr::Add(a, b) | Expr::Div(a, b) => { a.spec_targets(out); b.spec_targets(out); }
+            Expr::IfEq(e, _, a, b) => { e.spec_targets(out); a.spec_targets(out); b.spec_targets(out); }
+            Expr::Yield(e) => e.spec_targets(out),
             _ => {}
         }
     }
@@ -78,6 +105,8 @@ impl Expr {
             Expr::SumAll(_) => true,
             Expr::Add(a, b) => a.has_unordered() || b.has_unordered(),
             Expr::IfEq(e, _, a, b) => e.has_unordered() || a.has_unordered() || b.has_unordered(),
+            Expr::Spec(_, e) | Expr::Yield(e) => e.has_unordered(),
+            Expr::Div(a, b) => a.has_unordered() || b.has_unordered(),
             _ => false,
         }
     }
@@ -91,6 +120,8 @@ pub struct Program { pub nodes: Vec<NodeDef> }
 impl Program {
     pub fn kind(&self, k: u32) -> Kind { self.nodes[k as usize].kind }
     pub fn has_unordered(&self) -> bool { self.nodes.iter().any(|n| n.expr.has_unordered()) }
+    /// (C05) some executor starts a read and drops it
+    pub fn spec_targets(&self) -> Vec<u32> { let mut v = vec![]; for n in &self.nodes { n.expr.spec_targets(&mut v); } v.sort(); v.dedup(); v }
     /// `node <k> <kind> <default> <expr…>` lines
     pub fn render_lines(&self) -> Vec<String> {
         self.nodes.iter().enumerate().map(|(k, n)| { let mut s = format!("node {k} {} {} ", n.kind.tag(), n.default); n.expr.render(&mut s); s }).collect()
@@ -233,6 +264,21 @@ fn eval_expr<'a, C: Config>(sh: &'a Shared, te: &'a TrackedEngine<C>, e: &'a Exp
                 s
             }
             Expr::World(k) => *sh.world.lock().unwrap().get(k).unwrap_or(&0),
+            Expr::Spec(k, body) => {
+                let mut spec = Box::pin(query_key(sh, te, *k));
+                let first = futures::poll!(spec.as_mut());
+                if let std::task::Poll::Ready(x) = first { reads.lock().unwrap().push((*k, x)); }
+                let v = eval_expr(sh, te, body, reads).await;
+                drop(spec);
+                v
+            }
+            Expr::Div(a, b) => {
+                let x = eval_expr(sh, te, a, reads).await;
+                let y = eval_expr(sh, te, b, reads).await;
+                if y == 0 { panic!("division by zero (a read that is only valid under its guard was evaluated)"); }
+                x.wrapping_div(y)
+            }
+            Expr::Yield(body) => { tokio::task::yield_now().await; eval_expr(sh, te, body, reads).await }
         }
     })
 }
@@ -397,6 +443,10 @@ impl<'a> Scratch<'a> {
             Expr::IfEq(c, n, a, b) => { let x = self.eval(owner, c, reads)?; if x == *n { self.eval(owner, a, reads) } else { self.eval(owner, b, reads) } }
             Expr::SumAll(ks) => { let mut s = 0i64; for k in ks { let v = self.value(*k)?; reads.push((*k, v)); if self.members.contains(&owner) { return Err(()); } s = s.wrapping_add(v); } Ok(s) }
             Expr::World(k) => Ok(*self.t.ext.get(k).unwrap_or(&0)),
+            // the speculative read never contributes to the value
+            Expr::Spec(_, body) => self.eval(owner, body, reads),
+            Expr::Div(a, b) => { let x = self.eval(owner, a, reads)?; let y = self.eval(owner, b, reads)?; if y == 0 { panic!("ill-formed case: the from-scratch evaluation divides by zero"); } Ok(x.wrapping_div(y)) }
+            Expr::Yield(body) => self.eval(owner, body, reads),
         }
     }
 }
